@@ -90,11 +90,11 @@ def showLines (ls : List Opt.Rcmd.Line) : String :=
     " " ++ (match l.rtype with | some t => hx t | none => "~") ++ "|" ++ hx l.host ++ "|" ++ hx l.user ++
     "|" ++ toString l.rank)
 
-def regModel (toks : List String) : String :=
+def regModel (re : Bool) (toks : List String) : String :=
   match parseReg toks emptyCase with
   | none => "bad-op"
   | some c =>
-    match Opt.Rcmd.run c.cfg c.words c.targets with
+    match (if re then Opt.Rcmd.runRe c.cfg c.words c.targets else Opt.Rcmd.run c.cfg c.words c.targets) with
     | .fatal => "fatal"
     | .lines ls => showLines ls
 
@@ -115,7 +115,7 @@ def regSpec (toks : List String) : String :=
     else if ls.any (·.rtype.isNone) then "nodomain"
     else showLines ls
 
-def stepModel (v : Variant) (line : String) : String :=
+def stepModel (v : Variant) (re : Bool) (line : String) : String :=
   match Driver.words line with
   | ["fmt", h, u, r, m] =>
     match Hex.decodeToChars h, Hex.decodeToChars u, r.toNat?, Hex.decodeToChars m with
@@ -141,7 +141,7 @@ def stepModel (v : Variant) (line : String) : String :=
       | some p => hx (rshRequest p l r c)
       | none => "bad-op"
     | _, _, _ => "bad-op"
-  | "reg" :: rest => regModel rest
+  | "reg" :: rest => regModel re rest
   | _ => "bad-op"
 
 def stepSpec (line : String) : String :=
@@ -173,7 +173,12 @@ def main (args : List String) : IO UInt32 := do
   match args with
   | ["model", v] =>
     match variantOf v with
-    | some v => Driver.forLines stdin () (fun _ l => ((), stepModel v l)); return 0
+    | some v => Driver.forLines stdin () (fun _ l => ((), stepModel v false l)); return 0
+    | none => IO.eprintln "variant: unchanged|repaired|d10|d11"; return 2
+  | ["model", v, "reexpand"] =>
+    -- reexpand = the proposed repair of F09-2BR (findings/C09.patch): Opt.Rcmd.reExpand
+    match variantOf v with
+    | some v => Driver.forLines stdin () (fun _ l => ((), stepModel v true l)); return 0
     | none => IO.eprintln "variant: unchanged|repaired|d10|d11"; return 2
   | ["spec"] => Driver.forLines stdin () (fun _ l => ((), stepSpec l)); return 0
   | _ => IO.eprintln "usage: pdshmodel rcmd model <variant> | spec"; return 2
